@@ -152,6 +152,15 @@ Proof.
   right. eexists. split; [exact He'|done].
 Qed.
 
+Lemma update_attr_chg s K x a fail : a_uid a = [] → chg K s (update_attr s K x a fail).1.
+Proof.
+  intros Hu. destruct (update_attr s K x a fail) as [s' ra] eqn:Er. cbn [fst].
+  destruct (update_attr_spec _ _ _ _ _ _ _ Er) as [(_ & e & He & Hk & Ha & _)|[_ ->]]; [|apply chg_refl].
+  intros y. rewrite Ha. destruct (decide (y = x)) as [->|Hne].
+  - right. exists e. split_and!; try done. right. eexists. split; [apply lookup_insert|done].
+  - left. by apply lookup_insert_ne.
+Qed.
+
 Lemma release_chg s K x fail : chg K s (release s K x fail).1.
 Proof.
   destruct (release s K x fail) as [s' ra] eqn:Er. cbn [fst].
@@ -297,13 +306,19 @@ Proof.
   match goal with |- confined _ _ (match ?r with _ => _ end).1 => set (s1 := r) end.
   assert (confined (e_key e) w s1.1) as Hs1.
   { unfold s1. destruct (_ && _)%bool; [|by apply confined_refl].
-    destruct (bool_decide _); [by apply confined_refl|].
-    set (w1 := cloud_unassign w ip (e_node e)).
-    assert (confined (e_key e) w w1) as Hw1 by (by apply confined_cloud_unassign).
-    assert (confined (e_key e) w1 (set_ipam w1 (reserve_ip (w_ipam w1) (e_key e) (e_key e) free_entry_attr ocl None).1)).
-    { apply confined_set_ipam; [by apply inv2_reserve_ip|apply reserve_ip_chg]. }
-    destruct (reserve_ip (w_ipam w1) (e_key e) (e_key e) free_entry_attr ocl None) as [s' ra]. cbn [fst snd] in *.
-    destruct ra; cbn [fst]; try done; by eapply confined_trans. }
+    destruct (negb _); [by apply confined_refl|].
+    match goal with |- context [unassign_loop w ?oun 0 fl] => set (oun0 := oun) end.
+    pose proof (unassign_loop_confined (e_key e) fl oun0 w 0%nat Hi) as Hw1.
+    destruct (unassign_loop w oun0 0 fl) as [w1 [| |]]; cbn [fst] in Hw1.
+    - destruct (negb _); [by apply confined_refl|].
+      match goal with |- context [reserve_ip (w_ipam w1) _ _ _ ?ocl0 None] => set (ocl1 := ocl0) end.
+      assert (confined (e_key e) w1 (set_ipam w1 (reserve_ip (w_ipam w1) (e_key e) (e_key e) free_entry_attr ocl1 None).1)).
+      { apply confined_set_ipam; [apply inv2_reserve_ip; by eapply confined_inv2|apply reserve_ip_chg]. }
+      destruct (reserve_ip (w_ipam w1) (e_key e) (e_key e) free_entry_attr ocl1 None) as [s' ra]. cbn [fst snd] in *.
+      destruct ra; cbn [fst]; try done; by eapply confined_trans.
+    - destruct (f_cloud fl); [|by apply confined_refl].
+      destruct (_ || _)%bool; [done|by apply confined_refl].
+    - done. }
   destruct s1 as [w1 [| |]]; cbn [fst] in *; try done.
   eapply confined_trans; [exact Hs1|]. rewrite <- Ekk. apply unbind_any_confined. by eapply confined_inv2.
 Qed.
@@ -353,9 +368,10 @@ Proof.
     destruct (bool_decide _); [by apply confined_refl|].
     set (w1 := cloud_unassign w ip (e_node e)).
     assert (confined (Keys.ko_key k) w w1) as Hw1 by (by apply confined_cloud_unassign).
-    assert (confined (Keys.ko_key k) w1 (set_ipam w1 (reserve_ip (w_ipam w1) (e_key e) (e_key e) free_entry_attr ocl None).1)).
-    { apply confined_set_ipam; [by apply inv2_reserve_ip|]. rewrite Ek. apply reserve_ip_chg. }
-    destruct (reserve_ip (w_ipam w1) (e_key e) (e_key e) free_entry_attr ocl None) as [s' ra]. cbn [fst snd] in *.
+    match goal with |- context [update_attr (w_ipam w1) _ ip ?a0 ?f0] => set (a1 := a0); set (f1 := f0) end.
+    assert (confined (Keys.ko_key k) w1 (set_ipam w1 (update_attr (w_ipam w1) (e_key e) ip a1 f1).1)).
+    { apply confined_set_ipam; [by apply inv2_update_attr|]. rewrite Ek. by apply update_attr_chg. }
+    destruct (update_attr (w_ipam w1) (e_key e) ip a1 f1) as [s' ra]. cbn [fst snd] in *.
     destruct ra; cbn [fst]; try done; by eapply confined_trans. }
   destruct s1 as [w1 [| |]]; cbn [fst] in *; try done.
   eapply confined_trans; [exact Hs1|].
